@@ -90,6 +90,28 @@ def run_merge(probes, fill=0):
                 os.makedirs(str(sd.parent), exist_ok=True)
             truths.append(dsgen.make_dataset(sd, probe_spec(p, fill)))
             subdirs.append(sd)
+        if len(probes) == 2 and any(p.get('tsv') for p in probes):
+            # an earlier session merged the same probe directories when their per-cluster tables held
+            # other values; the tables were rewritten in place since: a merge reads the files as they are
+            saved = {}
+            try:
+                for sd in subdirs:
+                    for fn in os.listdir(str(sd)):
+                        if fn.endswith('.tsv'):
+                            fp = os.path.join(str(sd), fn)
+                            saved[fp] = open(fp, 'rb').read()
+                            lines = saved[fp].decode().split('\n')
+                            with open(fp, 'w') as f:
+                                f.write('\n'.join([lines[0]] + [
+                                    (l.split('\t')[0] + '\tearlier') if l.strip() else l for l in lines[1:]]))
+                em_ = Merger(subdirs, d / 'merged-in-an-earlier-session').merge()
+                em_.close()
+            except Exception:
+                pass
+            finally:
+                for fp, content in saved.items():
+                    with open(fp, 'wb') as f:
+                        f.write(content)
         before = [dsgen.sha1_dir(sd) for sd in subdirs]
         out_dir = d / 'merged'
         # the output directory already holds the arrays of an earlier merge of other probes (other
